@@ -13,8 +13,12 @@ PROVED from the real source, given Inv (pointwise at an arbitrary end e*):
    remove_path(p): the ends of p leave the grid, every other (cell, id) stays: Inv is preserved with live' = live minus p
    find_adjacents: one iteration for an arbitrary cell (x_col, y_row) appends exactly its in-grid neighbours (R4 for that cell)
    lemma: an end within one cell width of an in-grid query lies in the 3x3 neighbourhood
-BOUNDED (labelled, DESIGN's declared fallback): Inv after __init__ and the end-to-end behaviour over removal histories,
-   exhaustively on small lattices against brute force (native/n_c13.py).
+   __init__: for >= 1 paths with finite coordinates and non-zero extent (two usable ends at different positions), B >= 1, any reverse:
+                never raises; sizes (R1), bin sizes > 0; stored(c, e) <=> e is a usable end and c == cell(pt(e)); lookup[e] == cell(pt(e))
+                inside the grid; every id appended exactly once (R2); adjacents installed by find_adjacents (modular).  Two loop invariants
+                (running extent; filing cursor) over a vertex list of UNKNOWN length, pointwise at skolem indices.
+   lemma: the postcondition of __init__ implies the Inv instances the other proofs assume.
+ADDITIONALLY (bounded, labelled, not counted as proved): end-to-end removal histories against brute force on small lattices (native/n_c13.py).
 """
 import z3
 
@@ -63,6 +67,16 @@ def neighbourhood(c0, c):
 class VVerts(Val):
     pytype = 'list'
 
+    def length(self, ex, p):
+        return VInt(N)
+
+    def enumerate(self, ex, p):
+        return VEnumVerts()
+
+    @staticmethod
+    def elem(t):
+        return VTuple([VTuple([VFloat(VXf(t, s)), VFloat(VYf(t, s))]) for s in (0, 1)])
+
     def getitem(self, ex, p, idx, node=None):
         t = idx.z()
         for q, r in ex.raise_unless(p, z3.And(t >= 0, t < N), 'IndexError', node):
@@ -70,6 +84,11 @@ class VVerts(Val):
                 yield q, r
             else:
                 yield q, VTuple([VTuple([VFloat(VXf(t, s)), VFloat(VYf(t, s))]) for s in (0, 1)])
+
+
+class VEnumVerts(Val):
+    """enumerate(vertices)"""
+    pytype = 'enumerate'
 
 
 class VLookup(Val):
@@ -161,6 +180,8 @@ def dist2(v, e):
 
 class BestLoop(LoopSpec):
     """shared shape of the four scans of nearest()"""
+    modifies = frozenset({'best_index', 'best_dist'})      # head() re-describes both (possibly by the very same None object)
+
     def __init__(self, kind):
         self.kind = kind          # 'cells' (neighbourhood), 'ids' (one grid cell), 'range' (fallback over all cells)
 
@@ -465,6 +486,312 @@ def check_find_adjacents(sess):
              z3.And(x == x2, y == y2))
 
 
+
+# ------------------------------------------------------------------------------ __init__ establishes Inv
+class HFnState:
+    """a list of unknown length seen as index -> Int term"""
+    def __init__(self, fn, n):
+        self.fn, self.n = fn, n
+
+    def copy(self):
+        return HFnState(self.fn, self.n)
+
+
+class VLookupB(Val):
+    """self.lookup while __init__ fills it: [0] * n with functional updates"""
+    pytype = 'list'
+
+    def __init__(self, ref):
+        self.ref = ref
+
+    def setitem(self, ex, p, idx, v, node=None):
+        st = p.heap[self.ref]
+        if not isinstance(idx, VInt) or not isinstance(v, VInt):
+            raise EngineError('lookup[...] = ... with non-integer operands')
+        t, val = idx.z(), v.z()
+        for q, r in ex.raise_unless(p, z3.And(t >= 0, t < st.n), 'IndexError', node):
+            if r is not None:
+                yield q, r
+                continue
+            old = q.heap[self.ref].fn
+            q.heap[self.ref].fn = (lambda e, _o=old, _t=t, _v=val: z3.If(e == _t, _v, _o(e)))
+            yield q, NORMAL
+
+
+class VGridB(Val):
+    """self.grid while __init__ fills it: ncells lists, membership view"""
+    pytype = 'list'
+
+    def __init__(self, ref, ncells):
+        self.ref, self.ncells = ref, ncells
+
+    def getitem(self, ex, p, idx, node=None):
+        t = idx.z()
+        for q, r in ex.raise_unless(p, z3.And(t >= 0, t < self.ncells), 'IndexError', node):
+            yield q, (r if r is not None else VIdListB(self, t))
+
+
+class VIdListB(Val):
+    pytype = 'list'
+
+    def __init__(self, grid, cell):
+        self.grid, self.cell = grid, cell
+
+    def method(self, ex, p, name, args, kwargs, node):
+        if name != 'append' or len(args) != 1 or not isinstance(args[0], VInt):
+            raise EngineError(f'list method {name} on a grid cell under construction')
+        e = args[0].z()
+        inst = p.ghost.get('fill_inv_at')
+        if inst is not None:
+            p.assume(inst(self.cell, e))          # the (quantified) loop invariant, instantiated at the pair being touched
+        st = p.heap[self.grid.ref]
+        c_any = z3.Int(fresh_name('any_cell'))
+        if inst is not None:
+            p.assume(inst(c_any, e))
+        ex.oblige(p, 'ensures', z3.Not(st.mem(c_any, e)), f'id-appended-at-L{getattr(node, "lineno", "?")}-is-not-yet-stored-in-any-cell(R2:exactly-once)')
+        old = st.mem
+        st.mem = (lambda c, x, _o=old, _c=self.cell, _e=e: z3.Or(_o(c, x), z3.And(c == _c, x == _e)))
+        yield p, NONE
+
+
+def within(ext, j):
+    xmin, ymin, xmax, ymax = ext
+    a = z3.And(xmin <= VXf(j, 0), VXf(j, 0) <= xmax, ymin <= VYf(j, 0), VYf(j, 0) <= ymax)
+    b = z3.And(xmin <= VXf(j, 1), VXf(j, 1) <= xmax, ymin <= VYf(j, 1), VYf(j, 1) <= ymax)
+    return z3.And(a, z3.Implies(REV, b))
+
+
+def finite(j):
+    return z3.And(*[z3.And(f(j, s) < INF, f(j, s) > -INF) for f in (VXf, VYf) for s in (0, 1)])
+
+
+def valid_end(e):
+    return z3.Or(z3.And(e >= 0, e < N), z3.And(REV, e >= N, e < 2 * N))
+
+
+def path_of(e):
+    return z3.If(e < N, e, e - N)
+
+
+class ExtentA(LoopSpec):
+    """for [x_1, y_1], [x_2, y_2] in vertices: running extent.
+    Invariant (cursor k): for all paths j < k: xmin <= x_j <= xmax, ymin <= y_j <= ymax for the start (and the end when reversing).
+    Proved pointwise at the skolem path indices in p.ghost['ext_inst']; being proved for an arbitrary index it may be instantiated
+    anywhere after the loop (p.ghost['extent_fact'])."""
+    def ext(self, p):
+        f = p.heap[p.env['self'].ref].fields
+        return (f['xmin'].z(), f['ymin'].z(), p.env['xmax'].z(), p.env['ymax'].z())
+
+    def establish(self, ex, p):
+        ok = all(isinstance(p.heap[p.env['self'].ref].fields.get(n), VFloat) for n in ('xmin', 'ymin')) and \
+            all(isinstance(p.env.get(n), VFloat) for n in ('xmax', 'ymax'))
+        return [('extent-variables-are-floats-on-entry', z3.BoolVal(ok))]
+
+    def head(self, ex, p):
+        f = p.heap[p.env['self'].ref].fields
+        for nm in ('xmin', 'ymin'):
+            f[nm] = VFloat(z3.Real(fresh_name('self_' + nm)))
+        for nm in ('xmax', 'ymax'):
+            p.env[nm] = VFloat(z3.Real(fresh_name(nm)))
+        k = z3.Int(fresh_name('cursor_A'))
+        p.ghost['kA'] = k
+        p.assume(k >= 0)
+        for j in p.ghost['ext_inst']:
+            p.assume(z3.Implies(z3.And(j >= 0, j < k), within(self.ext(p), j)))
+
+    def bind(self, ex, h, s, it):
+        if not isinstance(it, VVerts):
+            raise EngineError('extent loop is not over the vertex list')
+        k = h.ghost['kA']
+        done = h.fork()
+        done.trail.append('extent-exhausted')
+        done.assume(k == N)
+        ext = self.ext(done)
+        done.ghost['extent_fact'] = (lambda j, _e=ext: z3.Implies(z3.And(j >= 0, j < N), within(_e, j)))
+        yield done, False
+        h.assume(z3.And(k < N, finite(k)))
+        h.trail.append('extent-next')
+        for q, o in ex.assign(h, s.target, VVerts.elem(k)):
+            yield q, (True if o is NORMAL else o)
+
+    def preserve(self, ex, p):
+        k = p.ghost['kA']
+        ok = all(isinstance(v, VFloat) for v in (p.heap[p.env['self'].ref].fields.get('xmin'), p.heap[p.env['self'].ref].fields.get('ymin'),
+                                                 p.env.get('xmax'), p.env.get('ymax')))
+        if not ok:
+            return [('extent-variables-stay-floats', z3.BoolVal(False))]
+        return [(f'extent-encloses-every-visited-path[{n}]', z3.Implies(z3.And(j >= 0, j < k + 1), within(self.ext(p), j)))
+                for n, j in enumerate(p.ghost['ext_inst'])]
+
+
+def cell_terms(p, obj):
+    f = p.heap[obj.ref].fields
+    return tuple(f[n].z() for n in ('xmin', 'ymin', 'bin_size_x', 'bin_size_y'))
+
+
+class FillLoop(LoopSpec):
+    """for (index_i, [[x_1, y_1], [x_2, y_2]]) in enumerate(vertices): file every end in its cell.
+    Invariant (cursor k), for ALL (c, e):   stored(c, e)  <=>  e is an end of a path < k  and  c == cell(pt(e));
+                                            lookup[e] == cell(pt(e)) for every end e of a path < k.
+    The state at the head is a pair of fresh functions; instances are added at the witness pair and wherever the body touches."""
+    def cs(self, p, e):
+        x, y = pt(e)
+        return cell_of(x, y, *p.ghost['cellgeom'])
+
+    def filed(self, k, e):
+        return z3.Or(z3.And(e >= 0, e < k), z3.And(REV, e >= N, e < N + k))
+
+    def inv_g(self, p, mem, k, c, e):
+        return mem(c, e) == z3.And(self.filed(k, e), c == self.cs(p, e))
+
+    def inv_l(self, p, fn, k, e):
+        return z3.Implies(self.filed(k, e), fn(e) == self.cs(p, e))
+
+    def states(self, p):
+        f = p.heap[p.env['self'].ref].fields
+        g, l = f.get('grid'), f.get('lookup')
+        if not (isinstance(g, VGridB) and isinstance(l, VLookupB)):
+            return None
+        return p.heap[g.ref], p.heap[l.ref]
+
+    def establish(self, ex, p):
+        st = self.states(p)
+        if st is None:
+            return [('grid-and-lookup-are-freshly-initialised-lists', z3.BoolVal(False))]
+        p.ghost['cellgeom'] = cell_terms(p, p.env['self'])
+        c, e = p.ghost['wit']
+        return [('nothing-stored-before-the-first-path', self.inv_g(p, st[0].mem, z3.IntVal(0), c, e))]
+
+    def head(self, ex, p):
+        st = self.states(p)
+        k = z3.Int(fresh_name('cursor_B'))
+        p.ghost['kB'] = k
+        p.assume(k >= 0)
+        Gh = z3.Function(fresh_name('stored_at_head'), IS, IS, BS)
+        Lh = z3.Function(fresh_name('lookup_at_head'), IS, IS)
+        st[0].mem = (lambda c, e: Gh(c, e))
+        st[1].fn = (lambda e: Lh(e))
+        p.ghost['fill_inv_at'] = (lambda c, e, _p=p, _k=k: self.inv_g(_p, (lambda c2, e2: Gh(c2, e2)), _k, c, e))
+        c, e = p.ghost['wit']
+        p.assume(self.inv_g(p, st[0].mem, k, c, e))
+        p.assume(self.inv_l(p, st[1].fn, k, e))
+
+    def bind(self, ex, h, s, it):
+        if not isinstance(it, VEnumVerts):
+            raise EngineError('fill loop is not over enumerate(vertices)')
+        k = h.ghost['kB']
+        done = h.fork()
+        done.trail.append('fill-exhausted')
+        done.assume(k == N)
+        done.ghost.pop('fill_inv_at', None)
+        yield done, False
+        h.assume(z3.And(k < N, finite(k), h.ghost['extent_fact'](k)))
+        h.trail.append('fill-next')
+        for q, o in ex.assign(h, s.target, VTuple([VInt(k), VVerts.elem(k)])):
+            yield q, (True if o is NORMAL else o)
+
+    def preserve(self, ex, p):
+        st = self.states(p)
+        if st is None:
+            return [('grid-and-lookup-are-not-replaced-inside-the-loop', z3.BoolVal(False))]
+        k = p.ghost['kB']
+        c, e = p.ghost['wit']
+        return [('stored(c,e)<=>e-filed-and-c==cell(e)', self.inv_g(p, st[0].mem, k + 1, c, e)),
+                ('lookup[e]==cell(e)-for-every-filed-end', self.inv_l(p, st[1].fn, k + 1, e))]
+
+
+class FindAdjContract:
+    """self.find_adjacents(): installs the adjacency list (R4, proved per cell in check_find_adjacents); reads bins_per_side only"""
+    def apply(self, ex, p, args, kwargs, node):
+        obj = args[0]
+        f = p.heap[obj.ref].fields
+        b = f.get('bins_per_side')
+        ex.oblige(p, 'callee-requires', z3.BoolVal(isinstance(b, VInt)) if not isinstance(b, VInt) else b.z() == B, 'find_adjacents:bins_per_side-is-set')
+        f['adjacents'] = VAdj()
+        yield p, NONE
+
+
+def init_listcomp(ex, p, e, it):
+    """[0 for _ in range(n)] and [[] for _ in range(n)] with symbolic n"""
+    import ast
+    from pyvc.seqops import VRange
+    if not isinstance(it, VRange) or it.conc():
+        return None
+    gen = e.generators[0]
+    if gen.ifs or not (it.lo.conc() and it.lo.t == 0 and it.step.conc() and it.step.t == 1):
+        return None
+    n = z3.If(it.hi.z() > 0, it.hi.z(), 0)
+    if isinstance(e.elt, ast.Constant) and type(e.elt.value) is int:
+        v = e.elt.value
+        ref = p.alloc(HFnState((lambda x, _v=v: z3.IntVal(_v)), n), 'lookup').ref
+        return VLookupB(ref)
+    if isinstance(e.elt, ast.List) and not e.elt.elts:
+        ref = p.alloc(HGridState(lambda c, x: z3.BoolVal(False)), 'grid').ref
+        return VGridB(ref, n)
+    return None
+
+
+def check_init(sess):
+    ctx = sess.new_ctx()
+    ctx.opts['inf_symbol'] = INF
+    ctx.opts['prune_timeout_ms'] = 3000
+    ctx.opts['listcomp_hook'] = init_listcomp
+    ctx.contracts[f'{CLS}.find_adjacents'] = FindAdjContract()
+    ctx.loop_specs[(f'{MOD}.Index.__init__', 0)] = ExtentA()
+    ctx.loop_specs[(f'{MOD}.Index.__init__', 1)] = FillLoop()
+    ex = Exec(ctx)
+    p = Path()
+    ea, eb, c, e = z3.Ints('end_a end_b any_cell any_end')
+    # requires: B >= 1, finite coordinates, non-zero extent: two (usable) ends at different positions
+    xa, ya = pt(ea)
+    xb, yb = pt(eb)
+    req = [B >= 1, N >= 1, INF > 0, valid_end(ea), valid_end(eb), z3.Or(xa != xb, ya != yb), finite(path_of(ea)), finite(path_of(eb)),
+           z3.Implies(valid_end(e), finite(path_of(e)))]
+    for r in req:
+        p.assume(r)
+    p.ghost['ext_inst'] = [path_of(ea), path_of(eb), path_of(e)]
+    p.ghost['wit'] = (c, e)
+    obj = p.alloc(HObj(CLS, {}), 'Index')
+    verts = VVerts()
+    outs = list(ex.run_function(p, MOD, 'Index.__init__', [obj, verts, VInt(B), VBool(REV)]))
+    tag = 'Index.__init__'
+    n = 0
+    for q, out in outs:
+        if not no_raise(ex, q, out, tag):
+            continue
+        f = q.heap[obj.ref].fields
+        g, l = f.get('grid'), f.get('lookup')
+        shape = (isinstance(g, VGridB) and isinstance(l, VLookupB) and isinstance(f.get('adjacents'), VAdj) and f.get('vertices') is verts
+                 and all(isinstance(f.get(nm), VFloat) for nm in ('xmin', 'ymin', 'bin_size_x', 'bin_size_y'))
+                 and isinstance(f.get('bins_per_side'), VInt) and isinstance(f.get('path_count'), VInt) and isinstance(f.get('reverse'), VBool))
+        oblige_at(ex, q, tag, 'ensures', shape, 'object-holds-grid,lookup,adjacents,vertices,geometry')
+        if not shape:
+            continue
+        n += 1
+        xmin, ymin, bsx, bsy = cell_terms(q, obj)
+        mem, fn = q.heap[g.ref].mem, q.heap[l.ref].fn
+        x, y = pt(e)
+        cell = cell_of(x, y, xmin, ymin, bsx, bsy)
+        oblige_at(ex, q, tag, 'ensures', z3.And(f['bins_per_side'].z() == B, f['path_count'].z() == N, f['reverse'].z() == REV), 'R1:parameters-recorded')
+        oblige_at(ex, q, tag, 'ensures', z3.And(g.ncells == B * B, q.heap[l.ref].n == z3.If(REV, 2 * N, N)), 'R1:grid-has-B*B-cells,lookup-one-slot-per-end')
+        oblige_at(ex, q, tag, 'ensures', z3.And(bsx > 0, bsy > 0), 'R1:bin-sizes-positive')
+        oblige_at(ex, q, tag, 'ensures', mem(c, e) == z3.And(valid_end(e), c == cell), 'R2/R3:stored(c,e)<=>e-is-an-end-and-c-is-its-cell')
+        oblige_at(ex, q, tag, 'ensures', z3.Implies(valid_end(e), z3.And(fn(e) == cell, cell >= 0, cell < B * B)), 'R2:lookup[e]-is-the-cell-of-e,inside-the-grid')
+        sess.cover(f'Index.__init__/exit-path-{n}-reachable', list(q.pc))
+    if n == 0:
+        raise EngineError('__init__: no completed path')
+    sess.absorb(ctx, replay=replay13('init'))
+    sess.cover('Index.__init__/requires', req + [REV, N >= 2, B >= 3])
+    # the postcondition of __init__ is the invariant the other proofs start from
+    mem0 = lambda c_, e_: G(c_, e_)
+    xmin, ymin, bsx, bsy = z3.Reals('xmin ymin bin_size_x bin_size_y')
+    x, y = pt(e)
+    cell = cell_of(x, y, xmin, ymin, bsx, bsy)
+    post = [B >= 1, G(c, e) == z3.And(valid_end(e), c == cell), z3.Implies(valid_end(e), z3.And(LK(e) == cell, cell >= 0, cell < B * B))]
+    sess.add('lemma/post(__init__)=>Inv-R3', 'spec', 'lemma', post, r3(c, e))
+    sess.add('lemma/post(__init__)=>every-end-is-live', 'spec', 'lemma', post + [G(LK(e), e) == z3.And(valid_end(e), LK(e) == cell)], z3.Implies(valid_end(e), live(e)))
+
+
 def geometric_lemma(sess):
     """an end within one cell width (both axes) of an in-grid query lies in the 3x3 neighbourhood: |a-b| <= 1 => |floor a - floor b| <= 1,
     and clamping to 0..B-1 is monotone"""
@@ -477,20 +804,23 @@ def geometric_lemma(sess):
 
 
 def build(sess):
-    sess.level = 'other'
+    sess.level = 'proof'
     sess.trust(
         'pyvc symbolic executor and its model of the Python subset; abstract views of grid / lookup / vertices / adjacents (membership and '
         'index functions) with list.remove deleting the (unique, by R2) occurrence',
-        'floats are modelled as reals; math.inf as a symbolic bound above every squared distance; math.floor exact',
+        'floats are modelled as reals; math.inf as a symbolic bound above every coordinate and squared distance; math.floor exact',
         'z3 (NIA/NRA with uninterpreted functions)',
-        'Inv after Index.__init__ is NOT proved here (bounded native check); everything else is proved from Inv',
+        'find_adjacents: the body of the double loop is proved for an arbitrary cell; that the two loops enumerate range(bins_per_side) is a '
+        'syntactic check, and different cells touch different lists by the injectivity lemma',
+        'vertices are [[x1, y1], [x2, y2]] pairs of floats (the documented input shape)',
     )
     check_nearest(sess)
     check_remove(sess)
     check_find_adjacents(sess)
+    check_init(sess)
     geometric_lemma(sess)
     r = native('n_c13', 'bounded', {'tier': sess.tier, 'seed': sess.seed}, timeout=7200)
-    sess.bounded.append({'function': 'spatial_grid.Index.__init__ (Inv established) + end-to-end removal histories', 'bound': r.get('bound'),
+    sess.bounded.append({'function': 'spatial_grid.Index end-to-end: Inv evaluated after __init__ and along removal histories (supplementary)', 'bound': r.get('bound'),
                          'evaluations': r.get('tried', 0), 'distinct_nontrivial': r.get('distinct', 0),
                          'rule': 'vertex sets on a small lattice x bins per side x reverse: Inv evaluated on the real object, then random '
                                  'query/removal histories against brute force; distinct = (B, reverse, n) configurations with at least one removal'})
@@ -499,9 +829,10 @@ def build(sess):
                                        'observed': r.get('observed'), 'expected': r.get('expected'), 'summary': f"{r.get('input')} -> {r.get('observed')} expected {r.get('expected')}"})
     sess.explanation = ('PROVED from the representation invariant: nearest (None iff nothing live; a live end; no live end of the 3x3 neighbourhood '
                         'closer; global minimum after the fallback incl. the index-0 fall-through; pure), remove_path (Inv preserved, exactly '
-                        'the path\'s ends removed), one find_adjacents iteration for an arbitrary cell (R4), the geometric corollary. By induction '
-                        'every interleaving of queries and removals satisfies the nearest clauses. BOUNDED, NOT PROVED: that __init__ '
-                        'establishes the invariant (exhaustive small lattices) -- the declared fallback of DESIGN.')
+                        'the path\'s ends removed), one find_adjacents iteration for an arbitrary cell (R4), the geometric corollary; __init__ '
+                        'establishes the invariant for a vertex list of unknown length (two loop invariants). By induction '
+                        'every interleaving of queries and removals satisfies the nearest clauses. A bounded native end-to-end check '
+                        'runs in addition (labelled, not counted).')
 
 
 def fallback(sess):
